@@ -114,6 +114,8 @@ def elf_space(body):
             yield ('set', o, 0xff)
             if dense and o % (4 if semi else 2) == 0:
                 yield ('set', o, 0)
+            elif not dense and name.startswith('.debug'):
+                yield ('set', o, 0)      # a zeroed length, form or abbreviation code byte in the DWARF sections
     for off in range(0, n, 128):
         yield ('trunc', off)
         yield ('zero', off, 64)
